@@ -7,7 +7,7 @@ CHECKS = {
   "text": "Theorems for all (total, free, min-space) over Nat x Nat x Rat: refusal <-> free < threshold (threshold < 2^64), "
           "monotone in free, default/operator threshold formulas; the model is parameterised by constants, operators and the "
           "conversion extracted from disk.go on every run; the real checkThreshold is compared with the model and with an "
-          "independent exact-rational oracle on boundary-focused triples.",
+          "independent exact-rational oracle on boundary-focused triples. checkThreshold itself is translated statement by statement from the source on every run (tools/facts/sec_arith.go) and a theorem proves that the translated program computes exactly the model decision for every volume size, free space and setting; exactness and monotonicity are restated over the translated program.",
   "note": COMMON_NOTE + "Modelled not verified: float64 arithmetic of checkThreshold is taken as exact on the ranges used "
           "(argued in Model/Disk.lean, validated by the correspondence); uint64(x) for x >= 2^64 is excluded; statfs is not modelled.",
  },
